@@ -140,11 +140,15 @@ def key_cql_type():
 
 # ------------------------------------------------------------------------------------------ SortedSet binding
 
-SET_MUTATORS = {"new", "add", "remove", "pop", "clear", "update", "ior", "iand", "isub", "ixor", "delitem", "delslice"}
+SET_MUTATORS = {"new", "add", "remove", "pop", "clear", "update", "ior", "iand", "isub", "ixor", "delitem", "delslice",
+                "derive", "mut_result", "mut_original"}
 _SETVAL = {"copy", "union", "intersection", "difference", "rdifference", "symmetric_difference"}
 _SEQVAL = {"iter", "reversed", "getslice"}
 _BOOLVAL = {"contains", "issubset", "issuperset", "isdisjoint", "le", "lt", "ge", "gt", "eq", "ne"}
 _IOPS = {"ior": operator.ior, "iand": operator.iand, "isub": operator.isub, "ixor": operator.ixor}
+_ZERO_OPS = {"copy": "copy", "union0": "union", "intersection0": "intersection", "difference0": "difference"}
+_OPERATORS = {"union": operator.or_, "intersection": operator.and_, "difference": operator.sub,
+              "symmetric_difference": operator.xor}
 _BINARY = {"union", "intersection", "difference", "rdifference", "symmetric_difference", "issubset", "issuperset",
            "isdisjoint", "le", "lt", "ge", "gt", "eq", "ne"}
 
@@ -164,6 +168,7 @@ class SetBinding:
 
     def fresh(self):
         self.cur = []                                # model items the object holds (as verified after the last step)
+        self.robj = None                             # the second object: what a set-valued call returned
         try:
             self.obj = self.cls()
         except Exception as ex:                      # a broken constructor must not crash the harness
@@ -172,18 +177,28 @@ class SetBinding:
 
     # -- the live object and what the harness knows about it
     def state(self):
-        return (self.obj, self.cur)
+        return (self.obj, self.cur, self.robj)
 
     def load(self, st):
-        self.obj, self.cur = st
+        self.obj, self.cur, self.robj = st
 
     def fork(self, st):
-        return (clone(st[0]), st[1])
+        o, r = clone_pair(st[0], st[2])
+        return (o, st[1], r)
 
     def forms_for(self, act):
         """Operand forms under which the class offers this operation (first = the one behaviours continue with)."""
         name = act["name"]
         forms = self.inst.forms
+        if name == "derive":
+            op, T = act["arg"]
+            if op in _ZERO_OPS:
+                return ["call"]
+            fs = [f for f in forms if not (f == "list" and op == "symmetric_difference")]
+            out = ["m:" + f for f in fs] + ["o:" + f for f in fs]      # method call / operator
+            if sorted(T) == self.cur:
+                out += ["m:alias", "o:alias"]                           # s.union(s), s | s, ...
+            return out
         if name in ("new", "update") or name in _BINARY:
             if name == "symmetric_difference":
                 return [f for f in forms if f != "list"]      # needs other.difference: not offered for plain lists
@@ -232,17 +247,48 @@ class SetBinding:
     def project(self):
         try:
             o = self.obj
-            return {"items": self.nseq(list(o)), "len": len(o)}
+            st = {"items": self.nseq(list(o)), "len": len(o)}
+            r = self.robj
+            if r is not None:
+                st["result_items"] = self.nseq(list(r))
+                st["result_len"] = len(r)
+                st["result_is_self"] = r is o
+            return st
         except Exception as ex:
             return {"exc": type(ex).__name__}
 
     @staticmethod
     def expected_state(node):
         s = sorted(node["S"])
-        return {"items": s, "len": len(s)}
+        st = {"items": s, "len": len(s)}
+        R = node.get("R") or ()
+        if len(R):
+            r = sorted(R[0])
+            st["result_items"] = r
+            st["result_len"] = len(r)
+            st["result_is_self"] = False
+        return st
 
     def _norm(self, name, r):
-        if name in _SETVAL or name in _SEQVAL:
+        if name == "derive":
+            return {"items": self.nseq(list(r)), "same_object": r is self.obj}
+        if name in ("mut_result", "mut_original"):
+            return NONE if r is None else self.inst.a(r)
+        if name in _SETVAL:
+            # a set-valued call returns a NEW set: not the receiver, and emptying / growing it must not reach the
+            # receiver or the operand (the state and the operand are compared right after the call)
+            snap = self.nseq(list(r))
+            if r is self.obj:
+                return "the-receiver-itself:" + repr(snap)
+            try:
+                if snap:
+                    r.clear()
+                else:
+                    r.add(self.inst.c(1))
+            except Exception:
+                pass
+            return snap
+        if name in _SEQVAL:
             return self.nseq(list(r))
         if name in _BOOLVAL:
             return r if isinstance(r, bool) else "non-bool:" + repr(r)[:40]
@@ -262,6 +308,8 @@ class SetBinding:
             return list(res)
         if name in _IOPS:
             return None                               # `s op= o` rebinds s to whatever comes back; only the state counts
+        if name == "derive":
+            return {"items": sorted(res), "same_object": False}
         return res
 
     # -- calling styles: list of (style name, thunk)
@@ -347,16 +395,7 @@ class SetBinding:
         if name == "reversed":
             return [("reversed(s)", lambda: list(reversed(s)))]
         if name == "copy":
-            def cp():
-                r = s.copy()
-                snap = list(r)
-                # the copy is independent: emptying / growing it must not touch s (state compared afterwards)
-                if snap:
-                    r.clear()
-                else:
-                    r.add(c(1))
-                return snap
-            return [("s.copy()", cp)]
+            return [("s.copy()", lambda: s.copy())]        # independence probed in _norm
         if name == "getitem":
             return [("s[i]", lambda: s[arg])]
         if name == "getslice":
@@ -397,6 +436,29 @@ class SetBinding:
                 self._operand_check = (o, sorted(arg))
             self.obj = _IOPS[name](s, o)
             return None
+        if name == "derive":
+            op, T = arg
+            if op in _ZERO_OPS:
+                r = getattr(s, _ZERO_OPS[op])()           # s.copy() / s.union() / s.intersection() / s.difference()
+            else:
+                how, f = form.split(":")
+                if f == "alias":
+                    o = s
+                    self._operand_check = None
+                else:
+                    o = self.operand(T, f)
+                    self._operand_check = (o, sorted(T))
+                r = getattr(s, op)(o) if how == "m" else _OPERATORS[op](s, o)
+            self.robj = r
+            return r
+        if name in ("mut_result", "mut_original"):
+            target = self.robj if name == "mut_result" else s
+            what, e = arg
+            if what == "add":
+                return target.add(c(e))
+            if what == "clear":
+                return target.clear()
+            return target.pop()
         if name == "delitem":
             del s[arg]
             return None
@@ -689,6 +751,24 @@ def clone(obj):
         return obj
 
 
+def clone_pair(obj, other):
+    """clone() of two objects at once: storage they share stays shared between the copies."""
+    if other is None:
+        return clone(obj), None
+    if other is obj:
+        c = clone(obj)
+        return c, c
+    try:
+        d1, d2 = copy.deepcopy((obj.__dict__, other.__dict__))
+        a = object.__new__(type(obj))
+        a.__dict__.update(d1)
+        b = object.__new__(type(other))
+        b.__dict__.update(d2)
+        return a, b
+    except Exception:
+        return obj, other
+
+
 def jsonable(v):
     """Plain Python -> JSON-able (sets become sorted lists, tuples lists)."""
     if isinstance(v, dict):
@@ -795,6 +875,21 @@ def replay_dfs(kind, inst, n, nodes, succ, obs_out, init, on_divergence, max_des
         for leaf in obs_out.get(nid, ()):
             act = nodes[leaf]["act"]
             covered.add((nid, leaf))
+            if b.is_mutator(act["name"]):
+                # a terminal probe that changes one of the objects: on a branch, the node's object stays as it is
+                el = exp(leaf)
+                for f in b.forms_for(act):
+                    b.load(b.fork(st))
+                    stats["clones"] += 1
+                    b.form = f
+                    stats["edge_executions"] += 1
+                    d = step(b, act, el, depth)
+                    if d:
+                        clean = False
+                        stats["divergences"] += 1
+                        on_divergence(d, lineage + here + [(act, el, f)])
+                b.load(st)
+                continue
             here.append((act, e, "*"))
             for f in b.forms_for(act):
                 b.form = f
